@@ -200,7 +200,7 @@ def main():
                 "engine": "tlc-monitor",
                 "level_claimed": {"category": level, "text": text, "design_ref": "DESIGN.md section " + ref},
                 "level_note": MON_NOTE if pid != "C20" else MON_NOTE + " C20: the extension links the published sas-lexer 1.0.0-beta.3 "
-                              "from the offline cargo registry, not the workspace crate; two defects of that crate are listed as known findings.",
+                              "from the offline cargo registry, not the workspace crate; four defects of that crate (all repaired in the workspace crate) are listed as known findings.",
                 "technique": tech,
             })
         else:
